@@ -48,6 +48,16 @@ def _run_variant(args):
     try:
         shutil.copytree(os.path.join(repo_root, "pyrefact"), os.path.join(tmp, "pyrefact"),
                         ignore=shutil.ignore_patterns("__pycache__"))
+        if v.module == "*":   # whole-tree ast.unparse round trip: every line and column changes, no semantics
+            import ast as _ast
+            import glob as _glob
+            for path in _glob.glob(os.path.join(tmp, "pyrefact", "*.py")):
+                with open(path, encoding="utf-8") as stream:
+                    src = stream.read()
+                with open(path, "w", encoding="utf-8") as stream:
+                    stream.write(_ast.unparse(_ast.parse(src)) + "\n")
+            keys, errors = _keys(prop, tmp)
+            return (v.name, "ran", ";".join(errors), keys)
         for module, old, new in [(v.module, v.old, v.new)] + list(v.extra or []):
             path = os.path.join(tmp, "pyrefact", module + ".py")
             with open(path, encoding="utf-8") as stream:
@@ -75,6 +85,7 @@ def _run_variant(args):
 def run(prop: str, seed: int = 0, only: Optional[str] = None, verbose: bool = False, repo_root: str = "/repo"):
     mod = importlib.import_module(f"sa.props.{prop.lower()}")
     variants: List[Variant] = list(getattr(mod, "VARIANTS", []))
+    variants.append(Variant("unparse-round-trip-of-every-module", "SILENT", "*", "", ""))
     if only:
         variants = [v for v in variants if only in v.name]
     random.Random(seed).shuffle(variants)
@@ -118,7 +129,11 @@ def run(prop: str, seed: int = 0, only: Optional[str] = None, verbose: bool = Fa
                 summary["failed"] += 1
                 verdict = f"FAILED: not reported; new keys {new[:3]}"
         else:
-            if new or (info and not base_errors):
+            if v.module == "*" and gone:
+                failures.append(f"round trip changed the verdicts: findings no longer reported {gone[:3]}")
+                summary["failed"] += 1
+                verdict = f"FAILED: verdicts changed {gone[:3]}"
+            elif new or (info and not base_errors):
                 failures.append(f"SILENT variant {name} raised an alarm: {new[:3]} {info}")
                 summary["failed"] += 1
                 verdict = f"FAILED: alarm {new[:3]} {info}"
